@@ -89,10 +89,10 @@ func forwardTarget(w *ssa.Function) *ssa.Function {
 	if g == nil || g == w || g.Blocks == nil || g.Pkg != w.Pkg || g.Parent() != nil || g.Object() == nil || g.Object().Exported() {
 		return nil
 	}
-	if len(call.Call.Args) != len(w.Params) {
+	if len(callArgs(call)) != len(w.Params) {
 		return nil
 	}
-	for i, a := range call.Call.Args {
+	for i, a := range callArgs(call) {
 		if a != ssa.Value(w.Params[i]) {
 			return nil
 		}
@@ -312,6 +312,7 @@ func Load(dir, goos, goarch string) (*Program, error) {
 			P.calleesOf[e.Site] = append(P.calleesOf[e.Site], e.Callee.Func)
 		}
 	}
+	computeFieldAliases(P)
 	return P, nil
 }
 
